@@ -17,13 +17,18 @@ WANT_PROBES = ["dep_pending_parent", "dep_order", "dep_late"]
 def make(family, rng, tier):
     if family == "ex":
         return exgen.gen(rng, "C01", tier)
+    if family == "chaos":
+        scn = sysgen.gen_chaos(rng, tier)
+        scn["oracles"] = ["model"]
+        return scn
     scn = sysgen.gen(rng, None, "C01", tier)
     scn["oracles"] = []
     return scn
 
 
 def plan(tier):
-    return [("ex", 4000 if tier == "quick" else 60000), ("sys", 4000 if tier == "quick" else 80000)]
+    return [("ex", 4000 if tier == "quick" else 60000), ("sys", 4000 if tier == "quick" else 80000),
+            ("chaos", 1000 if tier == "quick" else 20000)]
 
 
 def extra(tier, seed):
